@@ -12,3 +12,5 @@ Definition wb (b0 b1 b2 b3 b4 b5 b6 b7 : byte) : N :=
    + 256 * (bN b5 + 256 * (bN b6 + 256 * bN b7)))))))%N.
 Definition zp (b0 b1 b2 b3 b4 b5 b6 b7 : byte) : Z := Z.of_N (wb b0 b1 b2 b3 b4 b5 b6 b7).
 Definition zn (b0 b1 b2 b3 b4 b5 b6 b7 : byte) : Z := (- Z.of_N (wb b0 b1 b2 b3 b4 b5 b6 b7))%Z.
+(* the empty word (most words of a sparse bitmap), one node *)
+Definition w0 : N := 0%N.
